@@ -262,6 +262,8 @@ def roundtrip(net, path, scratch, tag):
     import pandapipes as pp
     if path == "json_string":
         return pp.from_json_string(pp.to_json(net))
+    if path == "json_string_convert":
+        return pp.from_json_string(pp.to_json(net), convert=True)
     if path == "json_file":
         fn = os.path.join(scratch, "n_%s.json" % tag)
         pp.to_json(net, fn)
@@ -342,7 +344,7 @@ def run_diff(ctx):
     import pandapipes as pp
     from harness import drive
     from pandapipes.multinet.create_multinet import MultiNet
-    paths = ["json_string", "json_file", "json_filelike", "pickle"]
+    paths = ["json_string", "json_string_convert", "json_file", "json_filelike", "pickle"]
     if have_crypto():
         paths += ["json_encrypted", "json_encrypted_file", "json_encrypted_filelike"]
     else:
@@ -415,6 +417,30 @@ def run_convert(ctx):
     import pandapipes as pp
     from harness import c15_nets, drive
     from pandapipes.io.convert_format import convert_format
+    from pandapipes.multinet.create_multinet import MultiNet
+
+    def state(n):
+        return (drive.snapshot_tables(n), sorted(k for k in n.keys() if not k.startswith("_")), n.version, n.format_version,
+                str(n.sector), [c.__name__ for c in n.component_list])
+    # convert_format on a document as the JSON decoder delivers it (sector = plain string), every sector
+    for name, b in c15_nets.BUILDERS:
+        net = b(ctx.rng)
+        if isinstance(net, MultiNet):
+            continue
+        try:
+            loaded = pp.from_json_string(pp.to_json(net))
+        except Exception:  # noqa: BLE001 - reported by run_diff
+            continue
+        before = state(loaded)
+        convert_format(loaded)
+        ctx.case({"convert_format_after_load": name}, True)
+        if state(loaded) != before:
+            ch = [i for i, (x, y) in enumerate(zip(before, state(loaded))) if x != y]
+            ctx.violation({"clause": "convert_format_fixpoint", "what": "loaded document", "sector": str(net.sector)},
+                          "convert_format changes the freshly loaded current-format net %s (sector %s): parts %s of "
+                          "(tables, keys, version, format_version, sector, component_list); sector %r -> %r, components %s -> %s"
+                          % (name, net.sector, ch, before[4], str(loaded.sector), before[5], [c.__name__ for c in loaded.component_list]),
+                          {"net": name, "how": "n = from_json_string(to_json(net)); convert_format(n)"})
     for name, b in c15_nets.BUILDERS[:8]:
         net = b(ctx.rng)
         before = (drive.snapshot_tables(net), sorted(k for k in net.keys() if not k.startswith("_")), net.version, net.format_version)
